@@ -30,7 +30,7 @@ type c35Form struct {
 type c35Req struct {
 	Form   c35Form `json:"form"`
 	Mode   string  `json:"mode"`
-	Broken bool    `json:"broken"`
+	Broken string  `json:"broken"` // "no" | "truncated" | "epilogue"
 }
 
 type c35Beh struct {
@@ -39,7 +39,7 @@ type c35Beh struct {
 }
 
 func c35Content(class string, salt int) []byte {
-	n := map[string]int{"empty": 0, "small": 100, "big": 12 * 1024}[class]
+	n := map[string]int{"empty": 0, "small": 100, "big": 12 * 1024, "huge": 16*1024*1024 + 4096}[class]
 	b := make([]byte, n)
 	for i := range b {
 		b[i] = byte('a' + (i+salt)%23)
@@ -223,8 +223,9 @@ func TestVerifC35TempFiles(t *testing.T) {
 		spooled := 0
 		var parseErrs []string
 		s := &Server{
-			StreamRequestBody: b.Stream,
-			Logger:            csNopLogger{},
+			StreamRequestBody:  b.Stream,
+			MaxRequestBodySize: 64 << 20, // uploads above the 16 MiB pre-parse threshold must be admitted
+			Logger:             csNopLogger{},
 			Handler: func(ctx *RequestCtx) {
 				var k int
 				fmt.Sscanf(string(ctx.Path()), "/m%d", &k)
@@ -239,11 +240,21 @@ func TestVerifC35TempFiles(t *testing.T) {
 				if r.Mode == "untouched" {
 					return
 				}
+				if r.Mode == "ondemandlimit" {
+					// one byte below the body size: the form is parsed, found too large and must be dropped
+					_, err := ctx.Request.MultipartFormWithLimit(len(c35Encode(r.Form, "hb")) - 1)
+					mu.Lock()
+					if err == nil && r.Broken == "no" {
+						parseErrs = append(parseErrs, fmt.Sprintf("request %d: MultipartFormWithLimit(size-1) returned no error", k))
+					}
+					mu.Unlock()
+					return
+				}
 				f, err := ctx.MultipartForm()
 				mu.Lock()
 				defer mu.Unlock()
 				spooled += len(c35ListTmp(tmpdir))
-				if r.Broken {
+				if r.Broken != "no" {
 					if err == nil {
 						parseErrs = append(parseErrs, fmt.Sprintf("request %d: truncated form parsed without error", k))
 					}
@@ -268,13 +279,17 @@ func TestVerifC35TempFiles(t *testing.T) {
 		var problems []string
 		for i, r := range b.Hist {
 			body := c35Encode(r.Form, "hb")
-			if r.Broken {
+			if r.Broken == "truncated" {
 				body = body[:len(body)-len("\r\n--hb--\r\n")-1] // cut inside the last part: no closing boundary
+			}
+			declared := len(body)
+			if r.Broken == "epilogue" {
+				declared += 10 // promised after the closing boundary, never sent
 			}
 			var raw bytes.Buffer
 			fmt.Fprintf(&raw, "POST /m%d HTTP/1.1\r\nHost: x\r\nContent-Type: multipart/form-data; boundary=hb\r\n", i+1)
 			if r.Mode == "preparse" {
-				fmt.Fprintf(&raw, "Content-Length: %d\r\n\r\n", len(body))
+				fmt.Fprintf(&raw, "Content-Length: %d\r\n\r\n", declared)
 				raw.Write(body)
 			} else {
 				// chunked bodies are not pre-parsed: the form is only parsed if the handler asks
@@ -282,14 +297,21 @@ func TestVerifC35TempFiles(t *testing.T) {
 				raw.Write(body)
 				raw.WriteString("\r\n0\r\n\r\n")
 			}
-			go cli.Write(raw.Bytes()) //nolint:errcheck
-			cli.SetReadDeadline(time.Now().Add(3 * time.Second)) //nolint:errcheck
+			if r.Mode == "preparse" && r.Broken == "epilogue" {
+				// everything is delivered, then the client goes away while the server still
+				// waits for the promised rest of the body
+				cli.Write(raw.Bytes()) //nolint:errcheck
+				time.Sleep(20 * time.Millisecond)
+				break
+			}
+			go cli.Write(raw.Bytes())                             //nolint:errcheck
+			cli.SetReadDeadline(time.Now().Add(10 * time.Second)) //nolint:errcheck
 			var resp Response
 			if err := resp.Read(br); err != nil {
 				problems = append(problems, fmt.Sprintf("no response to request %d: %v", i+1, err))
 				break
 			}
-			if r.Mode == "preparse" && r.Broken {
+			if r.Mode == "preparse" && r.Broken != "no" {
 				if resp.StatusCode() != 400 {
 					problems = append(problems, fmt.Sprintf("truncated pre-parsed form answered with %d", resp.StatusCode()))
 				}
@@ -320,11 +342,11 @@ func TestVerifC35TempFiles(t *testing.T) {
 		for _, r := range b.Hist {
 			big := 0
 			for _, fl := range r.Form.Files {
-				if fl[2] == "big" {
+				if fl[2] == "big" || fl[2] == "huge" {
 					big++
 				}
 			}
-			if big > 0 && b.Stream && r.Mode == "ondemand" && !r.Broken {
+			if (big > 0 && b.Stream && r.Mode == "ondemand" && r.Broken == "no") || strings.Contains(fmt.Sprint(r.Form.Files), "huge") {
 				nontriv++
 			}
 			desc += fmt.Sprintf(" [%s big=%d broken=%v]", r.Mode, big, r.Broken)
@@ -340,7 +362,15 @@ func TestVerifC35TempFiles(t *testing.T) {
 			vfViol("C35:tmp-after-close:"+desc, fmt.Sprintf("temporary files remain after the connection was closed: %v", left), c)
 		default:
 			for i, ls := range atStart {
-				if len(ls) > 0 {
+				own := 0 // a pre-parsed request's own spooled files legitimately exist already
+				if i < len(b.Hist) && b.Hist[i].Mode == "preparse" && b.Hist[i].Broken == "no" {
+					for _, fl := range b.Hist[i].Form.Files {
+						if fl[2] == "huge" {
+							own++
+						}
+					}
+				}
+				if len(ls) > own {
 					vfViol(fmt.Sprintf("C35:tmp-at-next-request:%s at-request=%d", desc, i+1), fmt.Sprintf("temporary files of an earlier request exist when request %d is dispatched: %v", i+1, ls), c)
 					break
 				}
